@@ -1032,6 +1032,30 @@ def class_table_nodes(module, scope=''):
     return look
 
 
+def islice_to_slice(fnode):
+    """`itertools.islice(E, a[, b])` with E the list a str method returns (split, splitlines, ...) and constant non-negative bounds is
+    the items of `E[a:b]`"""
+    fn = clone(fnode)
+
+    class T(ast.NodeTransformer):
+        def visit_Call(self, c):
+            self.generic_visit(c)
+            if norm(c.func) in ('itertools.islice', 'islice') and 2 <= len(c.args) <= 3 and not c.keywords:
+                e = c.args[0]
+                is_list = isinstance(e, ast.Call) and isinstance(e.func, ast.Attribute) and e.func.attr in ('split', 'splitlines', 'rsplit')
+                bounds = c.args[1:]
+                okb = all(isinstance(b, ast.Constant) and (b.value is None or (isinstance(b.value, int) and b.value >= 0)) for b in bounds)
+                if is_list and okb:
+                    lo, hi = (None, bounds[0]) if len(bounds) == 1 else (bounds[0], bounds[1])
+                    lo = None if lo is None or lo.value is None else lo
+                    hi = None if hi is None or hi.value is None else hi
+                    return ast.copy_location(ast.Subscript(value=e, slice=ast.Slice(lower=lo, upper=hi, step=None), ctx=ast.Load()), c)
+            return c
+    fn = T().visit(fn)
+    ast.fix_missing_locations(fn)
+    return fn
+
+
 def iter_skip_to_slice(fnode):
     """`it = iter(E); next(it, d); ...k times...; for v in it: BODY` with E the list a str method returns (split, splitlines, ...)
     and `it` used nowhere else is `for v in E[k:]: BODY` -- taking k items off the iterator of a list, each with a default so that
